@@ -423,6 +423,18 @@ func c07Builders(c *Ctx, rc string) {
 	// finishSignature signs with the privKey parameter and embeds the certs parameter
 	signs := p.callsIn(fs, "(crypto.Signer).Sign")
 	okS := len(signs) == 1 && len(fs.Params) >= 5 && signs[0].Common().Value == fs.Params[3]
+	if _, host, via := xmlFinishHost(p); via != nil && host != fs && len(fs.Params) >= 5 {
+		// the signing step was given a name: it signs with the parameter that finishSignature hands its key to
+		hs := p.callsIn(host, "(crypto.Signer).Sign")
+		okS = false
+		if len(hs) == 1 {
+			for k, a := range via.Common().Args {
+				if a == ssa.Value(fs.Params[3]) && k < len(host.Params) && hs[0].Common().Value == ssa.Value(host.Params[k]) {
+					okS = true
+				}
+			}
+		}
+	}
 	c.Check(okS, rc, "lib/xmldsig.finishSignature signs with the checked key", p.Pos(fs.Pos()), "", "finishSignature does not sign with the key its callers checked")
 }
 
